@@ -168,6 +168,8 @@ def scramble(h, codes, trace=None, warmup=None):
          (e is inserted again should the call have removed it)
       8  remove a hyperedge, ask the queries, insert it again (the last mutation is an insertion)
       9  insert an extra hyperedge, ask the queries, remove it (the last mutation is a removal)
+     10  (Hypergraph) replace the first listed hyperedge e by e + {Z} and shrink it back with
+         remove_node(Z, keep_edges=True) (no merge: e is absent at that moment)
     Nodes, hyperedges, weights and metadata are the same before and after.
     """
     kind = type(h).__name__
@@ -178,7 +180,9 @@ def scramble(h, codes, trace=None, warmup=None):
         z = fresh_label(nodes)
         edges = list(h.get_edges())
         a = sorted(nodes, key=repr)[0]
-        code = code % 10
+        code = code % 11
+        if code == 10 and (kind != "Hypergraph" or z is None or not edges):
+            code = 4
         if code == 7 and kind not in ("Hypergraph", "DirectedHypergraph"):
             code = 6
         if code == 6 and z is None:
@@ -249,6 +253,32 @@ def scramble(h, codes, trace=None, warmup=None):
                     ask()
                     rem(other)
                     step = "insert %r, query, remove it" % (other,)
+        elif code == 10:
+            # a hyperedge that is not the last listed one is replaced by itself plus a new node
+            # Z and comes back through remove_node(Z, keep_edges=True) -- the shrink path that
+            # does NOT merge into an existing hyperedge (weighted objects included)
+            e = tuple(edges[0])
+            w, m = h.get_weight(e), h.get_edge_metadata(e)
+            h.remove_edge(e)
+            h.add_edge(e + (z,), metadata=m, **(dict(weight=w) if h.is_weighted() else {}))
+            if len(edges) >= 2:
+                # ... and another hyperedge is re-inserted AFTER it, so that the hyperedge to be
+                # shrunk is not the most recent one in any internal table
+                e1 = tuple(edges[1])
+                w1, m1 = h.get_weight(e1), h.get_edge_metadata(e1)
+                h.remove_edge(e1)
+                h.add_edge(e1, metadata=m1, **(dict(weight=w1) if h.is_weighted() else {}))
+            h.remove_node(z, keep_edges=True)
+            if h.check_edge(e):
+                # what a shrunk hyperedge keeps of its weight / metadata is C01's business:
+                # the content the module was promised is re-established here
+                if h.is_weighted() and h.get_weight(e) != w:
+                    h.set_weight(e, w)
+                if h.get_edge_metadata(e) != m:
+                    h.set_edge_metadata(e, m)
+            else:
+                h.add_edge(e, metadata=m, **(dict(weight=w) if h.is_weighted() else {}))
+            step = "replace %r by %r, remove_node(%r, keep_edges=True)" % (e, e + (z,), z)
         elif code == 6:
             h.add_node(z)
             if warmup is not None:
@@ -384,7 +414,7 @@ def history_codes(*parts):
     if int(d[0], 16) < 8:
         return []
     n = 1 + int(d[1], 16) % 3
-    return [int(d[2 + 2 * i:4 + 2 * i], 16) % 10 for i in range(n)]
+    return [int(d[2 + 2 * i:4 + 2 * i], 16) % 11 for i in range(n)]
 
 
 def default_warmup(h):
